@@ -3,7 +3,8 @@
   they keep alive (src/codegen/mod.rs, src/pipeline.rs, src/runtime/mod.rs).
 
   Objects:   Runtime r, Package k, Handle (positional; a handle may have been
-             turned into an `impl Fn` closure by `into_func`), Module k (= the
+             turned into an `impl Fn` closure by `into_func`, or be wrapped in a
+             `TestCase` handed out by `get_tests`), Module k (= the
              `Arc<ModuleData>` of compilation k, explicit strong count).
   Resources: Code k (JIT memory), ScriptConst k c (a `RotoConstant`: heap slot +
              JIT-compiled drop function), RegConst r (the `Arc` behind a
@@ -79,6 +80,9 @@ structure Facts where
       closure capture leaves that field behind and it is dropped when
       `into_func` returns -/
   closureKeepsArc : Bool
+  /-- a `TestCase` (what `Package::get_tests` hands out) stores the `TypedFunc`
+      that `Module::get_function` returned, and runs the test through it -/
+  testHoldsHandle : Bool
   /-- the holder of every kind of out-of-line data the emitted code refers to by
       address, other than constants and registered closures -/
   dataHolders : List Holder
@@ -119,7 +123,7 @@ structure Handle where
   k : Nat
   holds : Bool       -- owns one strong count of Module k
   expect : CallRes   -- what a call returned when the handle was created
-  isFn : Bool := false  -- it has been turned into an `impl Fn` closure by `into_func` (cannot be cloned)
+  isFn : Bool := false  -- a closure made by `into_func`, or a `TestCase`: wraps a handle, cannot be cloned
   deriving Repr
 
 def upd {α : Type} (f : Nat → α) (k : Nat) (v : α) : Nat → α :=
@@ -152,6 +156,7 @@ inductive Op
   | registerClosure (r : Nat)
   | compile (r k nconst : Nat) (useConst useClos useData : Bool) (value : Nat)
   | getHandle (k : Nat)
+  | getTest (k : Nat)
   | cloneHandle (i : Nat)
   | intoFunc (i : Nat)
   | call (i : Nat)
@@ -248,6 +253,7 @@ def valid (s : St) : Op → Bool
     s.rts.contains r && !(s.compiled.contains k)
       && (!useConst || s.rtConst.contains r) && (!useClos || s.rtClos.contains r)
   | .getHandle k => s.pkgs.contains k
+  | .getTest k => s.pkgs.contains k
   | .cloneHandle i => (s.hs[i]?).any (fun h => !h.isFn)
   | .intoFunc i => (s.hs[i]?).any (fun h => !h.isFn)
   | .call i => i < s.hs.length
@@ -277,6 +283,12 @@ def step (F : Facts) (s : St) : Op → St
       closRc := if keepClos then upd s.closRc r (s.closRc r + 1) else s.closRc }
   | .getHandle k =>
     let h : Handle := { k, holds := F.handleHoldsArc, expect := callRes s k }
+    { s with
+      hs := s.hs ++ [h]
+      strong := if h.holds then upd s.strong k (s.strong k + 1) else s.strong }
+  | .getTest k =>
+    -- `Package::get_tests`: a `TestCase` wraps the handle `get_function` made for the test function
+    let h : Handle := { k, holds := F.handleHoldsArc && F.testHoldsHandle, expect := callRes s k, isFn := true }
     { s with
       hs := s.hs ++ [h]
       strong := if h.holds then upd s.strong k (s.strong k + 1) else s.strong }
